@@ -1045,3 +1045,129 @@ Proof.
   intros m s. eexists. split; [reflexivity|]. split; [reflexivity|].
   intros fuel t. destruct fuel; reflexivity.
 Qed.
+
+(* ================================================================== *)
+(* termination of the loop: 3 * len - i decreases in every iteration *)
+
+Lemma length_del : forall l i, 0 <= i < Z.of_nat (length l) ->
+  Z.of_nat (length (del l i)) = Z.of_nat (length l) - 1.
+Proof.
+  intros l i H. unfold del. rewrite app_length, firstn_length, skipn_length. lia.
+Qed.
+
+Lemma length_setn : forall l i x, 0 <= i < Z.of_nat (length l) ->
+  Z.of_nat (length (setn l i x)) = Z.of_nat (length l).
+Proof.
+  intros l i x H. unfold setn. rewrite app_length, firstn_length.
+  replace (length (x :: skipn (S (Z.to_nat i)) l)) with (S (length (skipn (S (Z.to_nat i)) l))) by reflexivity.
+  rewrite skipn_length. lia.
+Qed.
+
+Section Measure.
+Variable convf : Z -> pyval -> fres.
+Variable f1 : unop -> Z -> pyval -> fres.
+Variable f2 : binop -> Z -> pyval -> pyval -> fres.
+
+Definition lenZ (l : list pins) : Z := Z.of_nat (length l).
+
+(* what every iteration guarantees *)
+Definition decreases (l : list pins) (i : Z) (l' : list pins) (i' : Z) : Prop :=
+  3 * lenZ l' - i' < 3 * lenZ l - i /\ i' <= lenZ l' /\ -1 <= i'.
+
+Ltac len_side :=
+  repeat (first [rewrite length_del by len_side | rewrite length_setn by len_side]); lia.
+
+Ltac lens := unfold decreases, lenZ in *; len_side.
+
+Lemma step_decreases : forall l i l' i',
+  0 <= i < lenZ l -> step convf f1 f2 l i = SNext l' i' -> decreases l i l' i'.
+Proof.
+  intros l i l' i' Hr H. unfold lenZ in Hr. unfold step in H.
+  set (cur := get l i) in *.
+  set (prev1 := if 0 <? i then get l (i - 1) else nop) in *.
+  set (prev2 := if 1 <? i then get l (i - 2) else nop) in *.
+  assert (P1 : prev1 <> nop -> 0 < i).
+  { intro Hn. unfold prev1 in Hn. destruct (0 <? i) eqn:E; [now apply Z.ltb_lt | congruence]. }
+  assert (P2 : prev2 <> nop -> 1 < i).
+  { intro Hn. unfold prev2 in Hn. destruct (1 <? i) eqn:E; [now apply Z.ltb_lt | congruence]. }
+  (* rule 1 *)
+  destruct (r_push_conv convf l i cur prev1) as [r|] eqn:E1; simpl in H.
+  { subst r. unfold r_push_conv in E1.
+    destruct cur; try discriminate. destruct prev1 eqn:Hp; try discriminate.
+    assert (0 < i) by (apply P1; unfold nop; discriminate).
+    destruct (src =? tc); try discriminate.
+    destruct (convf dst v); inversion E1; subst; lens. }
+  destruct (r_read_store l i cur prev1) as [r|] eqn:E2; simpl in H.
+  { subst r. unfold r_read_store in E2.
+    destruct cur; try discriminate. destruct prev1 eqn:Hp; try discriminate.
+    assert (0 < i) by (apply P1; unfold nop; discriminate).
+    destruct ((scope =? scope0) && zs_eqb args args0); inversion E2; subst; lens. }
+  destruct (r_push_un f1 l i cur prev1) as [r|] eqn:E3; simpl in H.
+  { subst r. unfold r_push_un in E3.
+    destruct cur; try discriminate. destruct prev1 eqn:Hp; try discriminate.
+    assert (0 < i) by (apply P1; unfold nop; discriminate).
+    destruct (f1 o tc v); inversion E3; subst; lens. }
+  destruct (r_push_bin f2 l i cur prev1 prev2) as [r|] eqn:E4; simpl in H.
+  { subst r. unfold r_push_bin in E4.
+    destruct cur; try discriminate. destruct prev1 eqn:Hp; try discriminate.
+    destruct prev2 eqn:Hp2; try discriminate.
+    assert (1 < i) by (apply P2; unfold nop; discriminate).
+    destruct (tc =? tc0); try discriminate.
+    destruct (f2 o tc v0 v); inversion E4; subst; lens. }
+  destruct (r_jmp_jmp l i cur prev1) as [r|] eqn:E5; simpl in H.
+  { subst r. unfold r_jmp_jmp in E5.
+    destruct (is_jump cur); simpl in E5; try discriminate.
+    destruct (is_jump prev1) eqn:Hj; try discriminate.
+    assert (0 < i) by (apply P1; intro E; rewrite E in Hj; discriminate).
+    inversion E5; subst; lens. }
+  (* rules 6, 7 and the increment *)
+  unfold r_tail in H.
+  destruct prev1 eqn:Hp.
+  - assert (0 < i) by (apply P1; unfold nop; discriminate).
+    destruct cur; try (inversion H; subst; lens).
+    destruct (tc =? 1); [|inversion H; subst; lens].
+    destruct (py_eq0 v); inversion H; subst; lens.
+  - destruct cur; inversion H; subst; lens.
+  - destruct cur; inversion H; subst; lens.
+  - destruct cur; inversion H; subst; lens.
+  - destruct cur; inversion H; subst; lens.
+  - destruct cur; inversion H; subst; lens.
+  - destruct cur; inversion H; subst; lens.
+  - destruct cur; inversion H; subst; lens.
+  - destruct cur; inversion H; subst; lens.
+  - destruct cur; inversion H; subst; lens.
+  - destruct cur; inversion H; subst; lens.
+  - assert (0 < i) by (apply P1; unfold nop; discriminate).
+    destruct cur; simpl in H; inversion H; subst; lens.
+  - destruct cur; inversion H; subst; lens.
+  - destruct cur; inversion H; subst; lens.
+Qed.
+
+Lemma opt_loop_terminates : forall fuel l i,
+  i <= lenZ l -> 3 * lenZ l - Z.max 0 i < Z.of_nat fuel ->
+  snd (opt_loop convf f1 f2 fuel l i) <> OFuel.
+Proof.
+  induction fuel as [|f IH]; intros l i Hi Hm.
+  - unfold lenZ in *. lia.
+  - simpl. destruct l as [|a l0]; [simpl; discriminate|].
+    set (l := a :: l0) in *.
+    destruct (i <? Z.of_nat (length l)) eqn:Hlt; [|simpl; discriminate].
+    apply Z.ltb_lt in Hlt.
+    set (i0 := if i <? 0 then 0 else i).
+    assert (Hi0 : i0 = Z.max 0 i) by (unfold i0; destruct (i <? 0) eqn:E; [apply Z.ltb_lt in E | apply Z.ltb_ge in E]; lia).
+    assert (Hl1 : 1 <= Z.of_nat (length l)) by (unfold l; simpl length; lia).
+    assert (Hr : 0 <= i0 < lenZ l) by (unfold lenZ in *; lia).
+    destruct (step convf f1 f2 l i0) as [l' i'| |] eqn:Hs; try (simpl; discriminate).
+    destruct (step_decreases l i0 l' i' Hr Hs) as (D1 & D2 & D3).
+    apply IH; [exact D2|]. unfold lenZ in *. lia.
+Qed.
+
+End Measure.
+
+(* the fuel the harness uses always suffices: the model's loop terminates *)
+Theorem optimize_terminates : forall l, snd (optimize_st (opt_fuel l) l) <> OFuel.
+Proof.
+  intros l. unfold optimize_st. apply opt_loop_terminates.
+  - unfold lenZ. lia.
+  - unfold lenZ, opt_fuel. lia.
+Qed.
